@@ -1152,7 +1152,7 @@ Proof.
            ++ rewrite Hsa, tab_app. reflexivity.
            ++ rewrite app_length. cbn [List.length]. unfold id_of_index. lia.
         -- rewrite Hse, etab_app. cbn [etab Nat.add]. rewrite (Hdom _ (Nat.le_refl _)). reflexivity.
-        -- exact Hale.
+        -- reflexivity.
         -- reflexivity.
         -- intros k Hk. rewrite app_length in Hk. cbn [List.length] in Hk. apply Hdom. lia.
   - (* record *)
@@ -1203,5 +1203,193 @@ Proof.
     split.
     + rewrite restrict_go_app, Hg, He. cbn [fst snd restrict_go restrict_step].
       destruct (enabled cs); rewrite ?app_nil_r; reflexivity.
-    + rewrite Hend. cbn [fst snd]. split; cbn [fs_spans fs_allocs fs_reg]; try done. split; done.
+    + rewrite Hend. cbn [fst snd]. split; cbn [fs_spans fs_allocs fs_reg]; done.
+Qed.
+
+Lemma RInv_init : RInv front_init front_init ∅ 0 [].
+Proof. split; [exact FInv_init | reflexivity | reflexivity | reflexivity | intros k _; apply lookup_empty]. Qed.
+
+Lemma restrict_steps enabled sites ops : ∀ fa fe m n spans,
+  RInv fa fe m n spans → forallb (fun o => no_stale_op (snd o)) ops = true →
+  snd (front_steps host_alloc enabled sites fe ops) = false
+  ∧ restrict_go enabled m n (fst (front_steps host_alloc all_enabled sites fa ops))
+    = fst (front_steps host_alloc enabled sites fe ops).
+Proof.
+  induction ops as [|o r IH]; intros fa fe m n spans HR Hns; [split; reflexivity|].
+  cbn [forallb] in Hns. apply andb_true_iff in Hns as [Ho Hns].
+  destruct (restrict_step_ok enabled sites fa fe m n spans (snd o) HR Ho)
+    as (ca & fa' & ce & fe' & Ea & Ee & Hgo & HR').
+  cbn [front_steps]. rewrite Ea, Ee.
+  destruct (IH fa' fe' _ _ _ HR' Hns) as [Hp Hr].
+  destruct (front_steps host_alloc all_enabled sites fa' r) as [ra ba].
+  destruct (front_steps host_alloc enabled sites fe' r) as [re be]. cbn [fst snd] in *.
+  split; [exact Hp|]. rewrite restrict_go_app, Hgo, Hr. reflexivity.
+Qed.
+
+Lemma wf_steps_no_stale sites ops : ∀ st st',
+  wf_steps false sites st ops = Some st' → forallb (fun o => no_stale_op (snd o)) ops = true.
+Proof.
+  induction ops as [|[t o] r IH]; intros st st' H; [reflexivity|].
+  cbn [wf_steps] in H. destruct (wf_step false sites st (t, o)) as [st1|] eqn:E; [|discriminate].
+  cbn [forallb snd]. rewrite (IH st1 st' H), andb_true_r.
+  destruct o as [| | | | | |k [j|raw]|]; try reflexivity.
+  cbn [wf_step snd] in E. destruct (live st k); cbn [andb] in E; discriminate.
+Qed.
+
+Theorem native_filtered_is_restriction_proof enabled p :
+  wf_prog_b p = true →
+  native_calls enabled p = restrict_calls enabled (native_calls all_enabled p).
+Proof.
+  intros Hwf. destruct (wf_prog_sym_run p Hwf) as [st Hst]. unfold sym_run in Hst.
+  unfold native_calls, restrict_calls, front_run. symmetry.
+  exact (proj2 (restrict_steps enabled (p_sites p) (p_ops p) front_init front_init ∅ 0 [] RInv_init
+                  (wf_steps_no_stale _ _ _ _ Hst))).
+Qed.
+
+(** every span / event of the restriction stems from one of the unfiltered trace, with the same
+    call site and values; and [normalise] keeps every span and event *)
+Lemma restrict_items enabled calls : ∀ m n,
+  (∀ i cs q vals, In (SNewSpan i cs q vals) (restrict_go enabled m n calls) →
+     ∃ id q', In (SNewSpan id cs q' vals) calls)
+  ∧ (∀ cs q vals, In (SEvent cs q vals) (restrict_go enabled m n calls) →
+     ∃ q', In (SEvent cs q' vals) calls).
+Proof.
+  induction calls as [|c r IH]; intros m n; [split; intros; contradiction|].
+  cbn [restrict_go]. destruct (restrict_step enabled m n c) as [[out m'] n'] eqn:E.
+  destruct (IH m' n') as [IH1 IH2]. split.
+  - intros i cs q vals Hin. apply in_app_or in Hin as [Hin|Hin].
+    + destruct c; cbn [restrict_step] in E;
+        repeat match type of E with context [match ?x with _ => _ end] => destruct x end;
+        injection E as <- <- <-; try contradiction; destruct Hin as [Hin|[]]; try discriminate.
+      injection Hin as <- <- <- <-. eexists _, _. left. reflexivity.
+    + destruct (IH1 _ _ _ _ Hin) as (id & q' & H). exists id, q'. right. exact H.
+  - intros cs q vals Hin. apply in_app_or in Hin as [Hin|Hin].
+    + destruct c; cbn [restrict_step] in E;
+        repeat match type of E with context [match ?x with _ => _ end] => destruct x end;
+        injection E as <- <- <-; try contradiction; destruct Hin as [Hin|[]]; try discriminate.
+      injection Hin as <- <- <-. eexists. left. reflexivity.
+    + destruct (IH2 _ _ _ Hin) as (q' & H). exists q'. right. exact H.
+Qed.
+
+Lemma norm_items sites calls : ∀ cnt,
+  (∀ id cs q vals, In (SNewSpan id cs q vals) calls →
+     In (HNewSpan id (site_data sites cs) (pkind_of q) vals) (norm_go sites cnt calls))
+  ∧ (∀ cs q vals, In (SEvent cs q vals) calls →
+     In (HEvent (site_data sites cs) (pkind_of q) vals) (norm_go sites cnt calls)).
+Proof.
+  induction calls as [|c r IH]; intros cnt; [split; intros; contradiction|].
+  rewrite norm_go_cons. destruct (IH (snd (norm_step sites cnt c))) as [IH1 IH2]. split.
+  - intros id cs q vals [->|Hin]; apply in_or_app; [left; left; reflexivity | right; apply IH1; exact Hin].
+  - intros cs q vals [->|Hin]; apply in_or_app; [left; left; reflexivity | right; apply IH2; exact Hin].
+Qed.
+
+Lemma in_strip_reg c l : is_hregister c = false → In c l → In c (strip_reg l).
+Proof. intros H Hin. apply filter_In. split; [exact Hin | rewrite H; reflexivity]. Qed.
+
+Theorem enabled_items_delivered_proof enabled mid p :
+  (∀ a b, mid a = mid b → a = b) →
+  wf_prog_b p = true → (spans_created (p_ops p) <= U32 - 1)%N →
+  (∀ i cs q vals, In (SNewSpan i cs q vals) (native_calls enabled p) →
+     ∃ h pk, In (HNewSpan h (site_data (p_sites p) cs) pk vals) (tunnel_calls mid p))
+  ∧ (∀ cs q vals, In (SEvent cs q vals) (native_calls enabled p) →
+     ∃ pk, In (HEvent (site_data (p_sites p) cs) pk vals) (tunnel_calls mid p)).
+Proof.
+  intros Hinj Hwf Hb. rewrite (native_filtered_is_restriction_proof enabled p Hwf).
+  destruct (tunnel_is_identity_upto_root_proof mid p Hinj Hwf Hb) as [Ht _].
+  destruct (restrict_items enabled (native_calls all_enabled p) ∅ 0%N) as [R1 R2].
+  destruct (norm_items (p_sites p) (native_calls all_enabled p) ∅) as [N1 N2].
+  assert (Hsub : ∀ c, In c (strip_reg (tunnel_calls mid p)) → In c (tunnel_calls mid p)).
+  { intros c Hc. apply filter_In in Hc as [Hc _]. exact Hc. }
+  split.
+  - intros i cs q vals Hin. destruct (R1 _ _ _ _ Hin) as (id & q' & Hin').
+    exists id, (unroot_pk (pkind_of q')). apply Hsub. rewrite Ht.
+    apply (in_map unroot _ (HNewSpan id (site_data (p_sites p) cs) (pkind_of q') vals)).
+    apply in_strip_reg; [reflexivity|]. apply N1. exact Hin'.
+  - intros cs q vals Hin. destruct (R2 _ _ _ Hin) as (q' & Hin').
+    exists (unroot_pk (pkind_of q')). apply Hsub. rewrite Ht.
+    apply (in_map unroot _ (HEvent (site_data (p_sites p) cs) (pkind_of q') vals)).
+    apply in_strip_reg; [reflexivity|]. apply N2. exact Hin'.
+Qed.
+
+(** the tunnel delivers spans and events of call sites the host disables (F7) *)
+Theorem host_filter_refuted_proof :
+  ∃ p enabled mid,
+    (∀ a b : nat, mid a = mid b → a = b)
+    ∧ wf_prog_b p = true ∧ single_threaded p = true ∧ known_explicit_root p = false
+    ∧ known_host_filter enabled p = true
+    ∧ (∃ cs, enabled cs = false
+         ∧ In (site_data (p_sites p) cs) (delivered_sites (tunnel_calls mid p))
+         ∧ ¬ In (site_data (p_sites p) cs)
+               (delivered_sites (normalise (p_sites p) (native_calls enabled p))))
+    ∧ strip_reg (tunnel_calls mid p)
+      ≠ strip_reg (canon (normalise (p_sites p) (native_calls enabled p))).
+Proof.
+  exists wit_filter, wit_info_only, N.of_nat. split; [intros a b H; lia|].
+  split; [vm_compute; reflexivity|]. split; [vm_compute; reflexivity|]. split; [vm_compute; reflexivity|].
+  split; [vm_compute; reflexivity|]. split.
+  - exists 1%nat. split; [vm_compute; reflexivity|]. split.
+    + vm_compute. right. left. reflexivity.
+    + vm_compute. intros [H|[H|[]]]; discriminate.
+  - vm_compute. discriminate.
+Qed.
+
+Theorem tunnel_never_rejects_proof mid p :
+  (∀ a b, mid a = mid b → a = b) →
+  wf_prog_b p = true → (spans_created (p_ops p) <= U32 - 1)%N →
+  Forall (fun o => o = Accepted) (tunnel_outcomes mid p)
+  ∧ List.length (tunnel_outcomes mid p) = List.length (sender_run mid p).
+Proof.
+  intros Hinj Hwf Hb. destruct (tunnel_is_identity_upto_root_proof mid p Hinj Hwf Hb) as [_ ->].
+  split; [|apply repeat_length]. apply List.Forall_forall. intros o Ho. apply repeat_spec in Ho. exact Ho.
+Qed.
+
+(** * The boolean equalities of the judges are equalities *)
+Lemma pk_eqb_spec a b : pk_eqb a b = true ↔ a = b.
+Proof.
+  destruct a, b; cbn [pk_eqb]; try (split; [discriminate | discriminate || congruence]); try (split; reflexivity).
+  rewrite N.eqb_eq. split; [intros ->; reflexivity | intros [= ->]; reflexivity].
+Qed.
+
+Lemma hc_eqb_spec a b : hc_eqb a b = true ↔ a = b.
+Proof.
+  destruct a, b; cbn [hc_eqb]; try (split; [discriminate | discriminate || congruence]);
+    rewrite ?andb_true_iff, ?N.eqb_eq, ?cs_data_eqb_spec, ?pk_eqb_spec, ?tvalues_eqb_spec.
+  all: split; [intros H; decompose [and] H; subst; reflexivity | intros [= ]; subst; repeat split; reflexivity].
+Qed.
+
+(** * Corollaries *)
+
+(** any host whose observable state is a function of the (non-registration) calls it receives,
+    with handle traffic folded and the two spellings of "no parent" identified, ends in the same
+    state natively and through the tunnel *)
+Theorem tunnel_same_for_function_hosts_proof {A} (host : list hcall → A) mid p :
+  (∀ a b, mid a = mid b → a = b) →
+  wf_prog_b p = true → single_threaded p = true →
+  (spans_created (p_ops p) <= U32 - 1)%N → known_explicit_root p = false →
+  host (strip_reg (tunnel_calls mid p))
+  = host (strip_reg (canon (normalise (p_sites p) (native_calls all_enabled p)))).
+Proof. intros. f_equal. by apply tunnel_is_identity_proof. Qed.
+
+Theorem tunnel_is_native_filtered_proof enabled mid p :
+  (∀ a b, mid a = mid b → a = b) →
+  wf_prog_b p = true → single_threaded p = true →
+  (spans_created (p_ops p) <= U32 - 1)%N → known_explicit_root p = false →
+  known_host_filter enabled p = false →
+  strip_reg (tunnel_calls_under enabled mid p)
+  = strip_reg (canon (normalise (p_sites p) (native_calls enabled p))).
+Proof.
+  intros Hinj Hwf Hst Hb Hk Hf. rewrite (native_filter_irrelevant_proof enabled p Hf).
+  by apply tunnel_is_identity_proof.
+Qed.
+
+Theorem enabled_still_delivered_proof enabled mid p :
+  (∀ a b, mid a = mid b → a = b) →
+  wf_prog_b p = true → (spans_created (p_ops p) <= U32 - 1)%N →
+  let unfiltered := native_calls all_enabled p in
+  strip_reg (tunnel_calls_under enabled mid p) = map unroot (strip_reg (normalise (p_sites p) unfiltered))
+  ∧ native_calls enabled p = restrict_calls enabled unfiltered.
+Proof.
+  intros Hinj Hwf Hb. cbv zeta. split.
+  - exact (proj1 (tunnel_is_identity_upto_root_proof mid p Hinj Hwf Hb)).
+  - exact (native_filtered_is_restriction_proof enabled p Hwf).
 Qed.
